@@ -1,7 +1,8 @@
 (* C12/Model.v — executable model of what report.py / analyzer.py do with an analysis result:
    (a) json.dumps' string encoder (default settings: ensure_ascii) and json.loads' string decoder;
-   (b) the embedded-HTML assembly: the placeholder replacements of Gen/C12Embed.v (regenerated from
-       report.py, in source order) and the HTML "script data" scan that gets the data back
+   (b) the embedded-HTML assembly: the escaping of '<' in the JSON text, the placeholder replacements of
+       Gen/C12Embed.v (regenerated from report.py, in source order: style sheet, script, data last) and
+       the HTML "script data" scan that gets the data back
        (a <script> element's text ends at the first "</script" — ASCII case-insensitive — that
        is followed by whitespace, '/' or '>');
    (c) make_merchant_id / section_id: Gen/C12MerchantId.v (translated);
@@ -99,12 +100,18 @@ Definition decode (l : text) : option text :=
 (* ===================================================================================== *)
 (* (b) embedding and extraction                                                           *)
 (* ===================================================================================== *)
-Definition data_script (j : text) : text := Emb.data_prefix ++ j ++ Emb.data_suffix.
-Definition slot_text (css js j : text) (s : Emb.slot) : text :=
-  match s with Emb.SCss => css | Emb.SData => data_script j | Emb.SJs => js end.
-(* final_html = html_template.replace(..).replace(..).replace(..), in the order found in report.py *)
-Definition embed (tpl css js j : text) : text :=
-  fold_left (fun t st => repl (fst st) (slot_text css js j (snd st)) t) Emb.embed_steps tpl.
+(* json.dumps(spending_data).replace('<', '\u003c'): every '<' of the JSON text becomes the six characters
+   \u003c (hand model of the replace chain Emb.data_escape_steps; Props.c12_escape_is_replace ties the two) *)
+Definition LT_ESC : text := uesc 60.
+Definition esc_lt (j : text) : text := flat_map (fun c => if c =? 60 then LT_ESC else [c]) j.
+Definition data_script (j : text) : text := Emb.data_prefix ++ esc_lt j ++ Emb.data_suffix.
+Definition slot_text (css js ds : text) (s : Emb.slot) : text :=
+  match s with Emb.SCss => css | Emb.SData => ds | Emb.SJs => js end.
+(* final_html = html_template.replace(..).replace(..).replace(..), in the order found in report.py,
+   ds = the data script text *)
+Definition embed_ds (tpl css js ds : text) : text :=
+  fold_left (fun t st => repl (fst st) (slot_text css js ds (snd st)) t) Emb.embed_steps tpl.
+Definition embed (tpl css js j : text) : text := embed_ds tpl css js (data_script j).
 
 Definition CLOSE : text := cps "</script".
 Definition SCRIPT : text := cps "script".
@@ -186,28 +193,26 @@ Definition DATA_PH : text := cps "/* DATA_PLACEHOLDER */".
 Definition JS_PH : text := cps "/* JS_PLACEHOLDER */".
 Definition is_none {A} (o : option A) : bool := match o with None => true | Some _ => false end.
 
-(* what the proofs need of the template and the style sheet (checked on the real files every run):
-   after the style sheet is inserted the data placeholder occurs exactly once, directly inside
-   "<script>…</script>", no earlier script looks like the data script, and the JS placeholder
-   occurs exactly once, after the data element (whose end tag does not start with a character
-   of that placeholder). *)
-Definition tpl_ok (tpl css : text) : bool :=
-  match find_split DATA_PH (repl CSS_PH css tpl) with
+(* what the proofs need of the template, the style sheet and the script (checked on the real files every
+   run): after the style sheet and the script are inserted the data placeholder occurs exactly once,
+   directly inside "<script>…</script>", and no earlier script looks like the data script. *)
+Definition tpl_ok (tpl css js : text) : bool :=
+  match find_split DATA_PH (repl JS_PH js (repl CSS_PH css tpl)) with
   | None => false
   | Some (X, Y) =>
-      is_none (find_split DATA_PH Y) && negb (occurs idc JS_PH X)
+      is_none (find_split DATA_PH Y)
       && match scan_pre MData [] X with
          | Some (MScript, [], found) => forallb (fun t => negb (is_data_script t)) found
          | _ => false
          end
-      && match Y with c0 :: _ => negb (memN c0 JS_PH) | [] => false end
-      && match find_split JS_PH Y with
-         | Some (Y1, Y2) => closes Y1 && is_none (find_split JS_PH Y2)
-         | None => false
-         end
+      && closes Y
   end.
 
-(* the computable guards on the data text *)
+(* the pre-fix variant of report.py (history): data inserted before the JS placeholder is replaced, no escaping *)
+Definition embed_prefix_variant (tpl css js j : text) : text :=
+  repl JS_PH js (repl DATA_PH (Emb.data_prefix ++ j ++ Emb.data_suffix) (repl CSS_PH css tpl)).
+
+(* computable predicates on a data text (used for the pre-fix history examples) *)
 Definition no_script_close (j : text) : bool := negb (occurs lowc CLOSE j).
 Definition no_js_placeholder (j : text) : bool := negb (occurs idc JS_PH j).
 
